@@ -306,17 +306,31 @@ static CO_ERR COCSdoUploadSegmented(CO_CSDO *csdo)
     uint32_t  ticks;
     uint8_t   cmd;
     uint8_t   n;
+    uint8_t   num;
     CO_IF_FRM frm;
 
     cmd = CO_GET_BYTE(csdo->Frm, 0u);
     if (((cmd >> 4u) & 0x01u) == csdo->Tfer.TBit) {
 
-        for (n = 1u; (n < 8u) && (csdo->Tfer.Buf_Idx < csdo->Tfer.Size); n++) {
+        /* data bytes in this segment */
+        num = 7u - ((cmd >> 1u) & 0x07u);
+        if ((uint32_t)num > (csdo->Tfer.Size - csdo->Tfer.Buf_Idx)) {
+            /* the server delivers more than the announced size */
+            COCSdoAbort(csdo, CO_SDO_ERR_LEN_HIGH);
+            COCSdoTransferFinalize(csdo);
+            return (result);
+        }
+        for (n = 1u; n <= num; n++) {
             csdo->Tfer.Buf[csdo->Tfer.Buf_Idx] = CO_GET_BYTE(csdo->Frm, n);
             csdo->Tfer.Buf_Idx++;
         }
 
-        if ((cmd & 0x01u) == 0x00u) {
+        if (((cmd & 0x01u) != 0x00u) &&
+            (csdo->Tfer.Buf_Idx < csdo->Tfer.Size)) {
+            /* the server ends before the announced size is reached */
+            COCSdoAbort(csdo, CO_SDO_ERR_LEN_SMALL);
+            COCSdoTransferFinalize(csdo);
+        } else if ((cmd & 0x01u) == 0x00u) {
             csdo->Tfer.TBit ^= 0x01u;
 
             CO_SET_ID  (&frm, csdo->TxId       );
